@@ -43,6 +43,9 @@ def scalar_forms(u, c, v, with_unit_only):
         ("Scalar(ObtainQuantity(u,c),v)", lambda: Scalar(ObtainQuantity(u, c), v)),
         ("Scalar.CreateWithQuantity", lambda: Scalar.CreateWithQuantity(ObtainQuantity(u, c), v)),
         ("Scalar(c).CreateCopy(v,u)", lambda: Scalar(c).CreateCopy(v, u)),
+        ("Scalar(ObtainQuantity([(u,1)],[c]),v)", lambda: Scalar(ObtainQuantity([(u, 1)], [c]), v)),
+        ("Scalar(ObtainQuantity({c:[u,1]}),v)", lambda: Scalar(ObtainQuantity(__import__("collections").OrderedDict([(c, [u, 1])])), v)),
+        ("Scalar(Scalar(c,v,u).GetValueAndUnit()+(c,))", lambda: Scalar(*(Scalar(c, v, u).GetValueAndUnit() + (c,)))),
     ]
     if with_unit_only:
         F += [("Scalar(v,u)", lambda: Scalar(v, u)), ("Scalar((v,u))", lambda: Scalar((v, u))), ("Scalar(ObtainQuantity(u),v)", lambda: Scalar(ObtainQuantity(u), v))]
@@ -85,6 +88,7 @@ def fraction_forms(u, c, v, with_unit_only, plain_float=False):
     else:
         fv = lambda: FractionValue(int(v), (1, 2))  # noqa
     F = [
+        ("FractionScalar(c,*GetValueAndUnit())", lambda: FractionScalar(c, *FractionScalar(c, fv(), u).GetValueAndUnit())),
         ("FractionScalar(c,fv,u)", lambda: FractionScalar(c, fv(), u)),
         ("FractionScalar(ObtainQuantity(u,c),fv)", lambda: FractionScalar(ObtainQuantity(u, c), fv())),
         ("FractionScalar.CreateWithQuantity", lambda: FractionScalar.CreateWithQuantity(ObtainQuantity(u, c), fv())),
